@@ -535,3 +535,44 @@ Proof.
     apply Hx. rewrite app_length. cbn. lia.
   - unfold tls13_aad_model, aad13, rec_header, be16. rewrite E23. reflexivity.
 Qed.
+
+(* ================================================================== which PSK the Early Secret is derived from
+   tls13GenerateEarlySecret's keep-or-regenerate logic, run through the calls a client / a server makes: the secret the
+   Handshake Secret is finally extracted from is Early(selected PSK), Early(0) when the server declined the offer *)
+Lemma early_secret_model_eq : forall sha3 psk, early_secret_model sha3 psk = Ok (early_secret_of (halg_of sha3) psk).
+Proof.
+  intros. unfold early_secret_model, early_secret_of. rewrite hkdf_extract_model_eq, hash_size_eq. reflexivity.
+Qed.
+
+Definition side_early_secret_model (is_server : bool) : bool -> option (list N) -> bool -> res es_state :=
+  if is_server then server_early_secret_model else client_early_secret_model.
+Theorem early_secret_selection_eq : forall sha3 is_server (offered : option (list N)) (selected : bool),
+  let sel := if selected then offered else None in
+  exists st, side_early_secret_model is_server sha3 offered selected = Ok st /\
+             es_from st = sel /\ es_value st = early_secret_of (halg_of sha3) sel.
+Proof.
+  intros sha3 is_server offered selected sel. subst sel.
+  unfold side_early_secret_model. destruct is_server; [unfold server_early_secret_model|unfold client_early_secret_model];
+    destruct offered as [p|]; destruct selected; unfold generate_early_secret_model;
+    cbn [es_done es_init andb orb negb bind]; rewrite ?early_secret_model_eq; cbn [bind es_done andb orb negb];
+    rewrite ?early_secret_model_eq; cbn [bind es_done andb orb negb]; rewrite ?early_secret_model_eq; cbn [bind];
+    eexists; (split; [reflexivity|split; reflexivity]).
+Qed.
+
+Theorem side_hs_secrets_eq : forall sha3 is_server (offered : option (list N)) (selected : bool) isres ecdhe th_ch th_sh th_sfin th_cfin,
+  let h := halg_of sha3 in
+  length th_ch = TlsSpec.hlen h -> length th_sh = TlsSpec.hlen h -> length th_sfin = TlsSpec.hlen h -> length th_cfin = TlsSpec.hlen h ->
+  let S := schedule13 h (if selected then offered else None) isres ecdhe th_ch th_sh th_sfin th_cfin in
+  side_hs_secrets_model sha3 is_server offered selected ecdhe th_sh =
+    Ok {| m_handshake := e_handshake S; m_c_hs := e_c_hs_traffic S; m_s_hs := e_s_hs_traffic S |} /\
+  e_handshake S = HKDF_Extract h (handshake_salt h (if selected then offered else None))
+                               (match ecdhe with Some e => e | None => zeros (TlsSpec.hlen h) end).
+Proof.
+  intros sha3 is_server offered selected isres ecdhe th_ch th_sh th_sfin th_cfin h H1 H2 H3 H4 S.
+  split; [|reflexivity].
+  unfold side_hs_secrets_model.
+  destruct (early_secret_selection_eq sha3 is_server offered selected) as [st [E [_ Ev]]]. unfold side_early_secret_model in E. rewrite E. cbn [bind]. rewrite Ev.
+  destruct (schedule_model_eq sha3 (if selected then offered else None) isres ecdhe th_ch th_sh th_sfin th_cfin H1 H2 H3 H4)
+    as [_ [_ [_ [Hhs _]]]].
+  exact Hhs.
+Qed.
